@@ -765,6 +765,18 @@ fn c06(job: &Job, sh: &mut Shard, t0: Instant) {
             words.push(w);
         }
     }
+    // a reply larger than the 8 KiB write buffer FOLLOWED by further replies (and requests behind a
+    // large request): SET b <9000 B> then two more requests over a reduced alphabet
+    {
+        let big_set = alpha.iter().find(|r| matches!(r, Req::Set(_, v) if v.len() > 1000)).cloned().unwrap();
+        let tail = vec![Req::Get(b"b".to_vec()), Req::Get(b"a".to_vec()), Req::Set(b"a".to_vec(), b"x".to_vec()), Req::Del(vec![b"b".to_vec()])];
+        for x in &tail {
+            for y in &tail {
+                words.push(vec![big_set.clone(), x.clone(), y.clone()]);
+                words.push(vec![x.clone(), big_set.clone(), Req::Get(b"b".to_vec()), y.clone()]);
+            }
+        }
+    }
     for w in &words {
         let n: usize = w.iter().map(|r| r.encode().len()).sum();
         let has_big = n > 2000;
